@@ -145,6 +145,22 @@ def check_triangles(case, ctx):
     byid, edges = _mesh_validity(ctx, verts, faces, 3, what)
     _check_disc(ctx, verts, faces, edges, byid, what)
     _on_surface(ctx, R, verts, what)
+    if case["via"] == "surface" and nu % 3 == 0 and not d.get("unclamped"):
+        # the two pieces of a split are surfaces of their own: each is meshed from its own samples
+        from geomdl import operations
+        (a_, b_), _dv = obj.domain
+        pcs = operations.split_surface_u(obj, a_ + 0.5 * (b_ - a_))
+        meshes = []
+        for pc in pcs:
+            pc.sample_size_u, pc.sample_size_v = 3, 4
+            pc.tessellate()
+        for i_, pc in enumerate(pcs):
+            vd = [list(v.data) for v in pc.vertices]
+            ev = [list(q) for q in pc.evalpts]
+            ctx.check(len(vd) == 12 and all(all(abs(x - y) <= 1e-12 * (1 + abs(y)) for x, y in zip(g_, e_)) for g_, e_ in zip(vd, ev)), "piece-mesh",
+                      "%s: piece %d of a split meshed with 3x4 samples has %d vertices; first vertex %r, its first sampled point %r" % (what, i_, len(vd), vd[:1], ev[:1]))
+            ctx.check(all(all(0 <= j_ < len(vd) for j_ in f_.data) for f_ in pc.faces), "face-index-range", "%s: piece %d of a split has faces out of range" % (what, i_))
+        ctx.label("split-pieces-meshed")
     if case["via"] == "surface" and nv % 2 and d["size"][1] > d["degree"][1] + 1:
         # the same surface gets another v knot vector (first interior knot moved) and is meshed again: the mesh follows
         kvv = list(build.kvs_of(obj)[1])
@@ -571,12 +587,18 @@ def check_container(case, ctx):
     """The aggregated mesh of a SurfaceContainer: consecutively numbered vertices, faces in range, and every
     face reproduces the triangle of the element's own tessellation."""
     n, k = case["n"], case["k"]
+    quad = case["n"] % 4 == 2          # the quadrilateral algorithm for all members (every sample is a vertex)
+    if quad:
+        k = 1
+    tkw = {} if quad else {"vertex_spacing": k}          # (the quadrilateral algorithm has no spacing option)
     n = ((n - 1) // k) * k + 1 if n - 1 >= k else k + 1
     refs = []
     for d in case["shapes"]:
         o = build.make(d)
         o.sample_size_u, o.sample_size_v = n, n
-        o.tessellate(vertex_spacing=k)
+        if quad:
+            o.tessellator = tessellate.QuadTessellate()
+        o.tessellate(**tkw)
         refs.append(([list(v.data) for v in o.vertices], [list(f.data) for f in o.faces]))
     objs = [build.make(d) for d in case["shapes"]]
     late = case["twice"] and len(objs) >= 2
@@ -593,14 +615,19 @@ def check_container(case, ctx):
     if case["n"] % 2:
         cont.tessellator = tessellate.TriangularTessellate()        # the documented way to choose the algorithm for all members
         ctx.label("tessellator-set-through-container")
-    cont.tessellate(vertex_spacing=k)
+    if quad:
+        cont.tessellator = tessellate.QuadTessellate()
+        ctx.label("quad-tessellator-set-through-container")
+    cont.tessellate(**tkw)
     if case["twice"]:
         _ = cont.vertices, cont.faces
-        cont.tessellate(vertex_spacing=k)          # a second call must not renumber anything
+        cont.tessellate(**tkw)          # a second call must not renumber anything
         if late:
             # the last surface joins after the first tessellation: the aggregate is rebuilt, ids stay consecutive
+            if quad:
+                objs[-1].tessellator = tessellate.QuadTessellate()          # (a member that joins later brings its own algorithm along)
             cont.add(objs[-1])
-            cont.tessellate(vertex_spacing=k)
+            cont.tessellate(**tkw)
     verts, faces = cont.vertices, cont.faces
     what = "container of %d surfaces, %dx%d samples, spacing %d%s" % (len(refs), n, n, k, ", tessellated twice" if case["twice"] else "")
     ctx.nt(True, "container>=2")
